@@ -171,6 +171,8 @@ func c03Tree(n *parser.ASTNode) string {
 
 // ---------------------------------------------------------------- running the real code
 
+var c03Erp *interpreter.ECALRuntimeProvider
+
 type c03Run struct {
 	tree    string
 	outcome string
@@ -197,7 +199,11 @@ func c03CollectFloats(v interface{}, into map[uint64]bool, depth int) {
 func c03Exec(src string, tables bool) (r c03Run) {
 	r.floats = map[uint64]bool{}
 	r.regex = map[[2]string]bool{}
-	erp := interpreter.NewECALRuntimeProvider("t", nil, &memLog{})
+	// one provider per process: every provider starts a cron goroutine
+	if c03Erp == nil {
+		c03Erp = interpreter.NewECALRuntimeProvider("t", nil, &memLog{})
+	}
+	erp := c03Erp
 	tree, err := parser.ParseWithRuntime("t", src, erp)
 	if err != nil {
 		r.tree, r.outcome = "PARSEERR", "-"
@@ -306,7 +312,7 @@ func c03Payload(src string) string {
 
 func init() {
 	register("C03", &Prop{
-		Timeout: 5 * time.Second,
+		Timeout: 30 * time.Second,
 		Gen:     c03Gen,
 		Run: func(payload string) string {
 			src := unhx(strings.SplitN(payload, " ", 2)[0])
@@ -690,7 +696,7 @@ func c03Gen(g *Gen) {
 	soup := []string{"1", "2", `"a"`, "true", "null", "(", ")", "[", "]", ",", "+", "-", "*", "<", "==", "and", "or", "not", "in", "%", "like"}
 	nSoup := 2500
 	if g.Thorough() {
-		nSoup = 30000
+		nSoup = 60000
 	}
 	for i := 0; i < nSoup; i++ {
 		n := 1 + r.Intn(6)
@@ -713,7 +719,7 @@ func c03Gen(g *Gen) {
 	// random trees to depth 6, random parentheses, random layout
 	nRandom := 9000
 	if g.Thorough() {
-		nRandom = 200000
+		nRandom = 500000
 	}
 	x := &c03G{g: g, r: r}
 	for i := 0; i < nRandom; i++ {
@@ -750,8 +756,8 @@ var c03TableKinds = [][2]string{
 
 type c03Entry struct {
 	node, nud, led string
-	binding       int
-	found         bool
+	binding        int
+	found          bool
 }
 
 func c03ExprName(e ast.Expr) string {
